@@ -7,12 +7,14 @@ import (
 	"sort"
 	"strings"
 
+	"golang.org/x/tools/go/packages"
 	"golang.org/x/tools/go/ssa"
 )
 
 func init() {
 	f := "internal/lsp/server_text_sync.go"
 	register(&Property{ID: "C21", Run: runC21, Mutants: []Mutant{
+		{Name: "a valid U+FFFD is taken for invalid UTF-8", File: "internal/lsp/protocol/mapper.go", Old: "if sz == 1 && r == utf8.RuneError {", New: "if r == utf8.RuneError {", Expect: "invalid-utf8-test"},
 		{Name: "store happens before the error check", File: f, Old: "\ttext, err := p.changedText(params.TextDocument.URI, params.ContentChanges)\n\tif err != nil {\n\t\treturn err\n\t}\n", New: "\ttext, err := p.changedText(params.TextDocument.URI, params.ContentChanges)\n\tp.fileMap[params.TextDocument.URI.Path()] = string(text)\n\tif err != nil {\n\t\treturn err\n\t}\n", Expect: "error-implies-no-store"},
 		{Name: "successful change is not stored", File: f, Old: "\tp.fileMap[params.TextDocument.URI.Path()] = string(text)\n\treturn nil\n}\nfunc (s *LSPServer) changedText", New: "\treturn nil\n}\nfunc (s *LSPServer) changedText", Expect: "success-implies-store"},
 		{Name: "store keyed by the raw URI", File: f, Old: "\tp.fileMap[params.TextDocument.URI.Path()] = string(text)\n\treturn nil", New: "\tp.fileMap[string(params.TextDocument.URI)] = string(text)\n\treturn nil", Expect: "key-consistency"},
@@ -50,6 +52,15 @@ func runC21(c *Ctx) {
 	pk := p.MustPkg("who-writes-the-store", "internal/lsp")
 	if pk == nil {
 		return
+	}
+	{
+		var lspPkgs []*packages.Package
+		for rel, q := range p.All {
+			if strings.Contains(rel, "internal/lsp") {
+				lspPkgs = append(lspPkgs, q)
+			}
+		}
+		c21RuneError(c, p, lspPkgs)
 	}
 	p.BuildSSA()
 	sp := p.SSAPkg(pk)
